@@ -406,6 +406,11 @@ def analyse_copy(ctx: Any, prog: Program, modname: str, clsname: str, meth: str,
                 for t in n.targets:
                     if isinstance(t, ast.Attribute) and dotted(t.value) == resname:
                         flows.setdefault(t.attr, []).append((n.value, 'direct'))
+            # a container field of the result filled element by element: `new.children.append(child.copy(..))` in a loop over self.children
+            if isinstance(n, ast.Call) and isinstance(n.func, ast.Attribute) and n.func.attr in ('append', 'add', 'extend', 'insert', 'update') and isinstance(n.func.value, ast.Attribute) \
+                    and dotted(n.func.value.value) == resname and n.args:
+                # (fields_read follows the loop variable to what it ranges over)
+                flows.setdefault(n.func.value.attr, []).append((n.args[-1], 'direct'))
     # ---- P1 ----------------------------------------------------------------------------------------
     for f in fields:
         if f in SHARED_OK:
@@ -658,6 +663,30 @@ def run(ctx: Any, prog: Program) -> None:
                     ctx.check('C09.P6', not extra, vm, a, f'{cls6}.copy carries `{F}` only when tests on {sorted(cg)} allow it, while {cls6}.export writes it depending on {sorted(ex_guards[F] | {F})} alone: an object for which '
                               f'the test on {extra} fails keeps `{F}` when written but loses it when copied', func=f'{cls6}.copy', text=f'{cls6}.copy: `{F}` carried under the conditions export() writes it')
 
+    # ---- P7: a copy into another map takes its sub-objects along --------------------------------------------------------------------------------
+    # copy methods with a destination-map parameter (`vmf` / `vmf_file`) copy their sub-objects with the same parameter.  A nested `.copy(...)`
+    # that is handed `self.vmf` / `self.map` (the SOURCE map) instead leaves the children registered with - and numbered by - the map the object
+    # came from: the new object is only half in the destination, and the ids of its parts collide with objects already there.
+    ctx.rule('C09.P7', 'nested copies receive the destination map parameter, never the source object\'s own map', floor=3)
+    MAPP = ('vmf', 'vmf_file', 'map')
+    for q7, fl7 in vm.all_funcs().items():
+        if not q7.endswith('.copy'):
+            continue
+        for f7 in fl7:
+            dest = [a.arg for a in f7.args.args + f7.args.kwonlyargs if a.arg in MAPP]
+            if not dest:
+                continue
+            me7 = f7.args.args[0].arg
+            for c in walk_no_nested(f7):
+                if isinstance(c, ast.Call) and isinstance(c.func, ast.Attribute) and c.func.attr == 'copy' and not (isinstance(c.func.value, ast.Name) and c.func.value.id == me7):
+                    passed = list(c.args) + [k.value for k in c.keywords]
+                    src_map = [a for a in passed if isinstance(a, ast.Attribute) and isinstance(a.value, ast.Name) and a.value.id == me7 and a.attr in MAPP]
+                    takes_map = any(isinstance(a, ast.Name) and a.id in dest for a in passed) or bool(src_map) or any(k.arg in MAPP for k in c.keywords)
+                    if not takes_map:
+                        continue
+                    ctx.check('C09.P7', not src_map, vm, c, f'{q7} copies a sub-object with `{U(c)[:70]}`, handing it the source\'s own map (`{U(src_map[0]) if src_map else ""}`) instead of the `{dest[0]}` argument: copied into '
+                              'another map, the children stay owned and numbered by the map they came from', func=q7, text=f'{q7}: `{U(c)[:50]}` gets the destination map')
+
     # ---- P5: what decides whether an optional part is copied is its presence, not its truth value ------------------------------------
     ctx.rule('C09.P5', 'copy methods test optional fields with `is None` / `is not None`: a present but falsy value (Vec(0, 0, 0), an empty list) is still copied', floor=1)
     FALSY_BUILTINS = {'list', 'List', 'dict', 'Dict', 'set', 'Set', 'tuple', 'Tuple', 'str', 'int', 'float', 'bytes', 'Sequence', 'Mapping', 'MutableMapping'}
@@ -794,6 +823,7 @@ def run(ctx: Any, prog: Program) -> None:
 
 
 MUTANTS = [
+    {'id': 'visgroup_children_copied_into_source_map', 'file': 'vmf.py', 'find': "                child.copy(vmf, group_mapping)\n", 'replace': "                child.copy(self.vmf, group_mapping)\n", 'expect': 'C09.P7'},
     {'id': 'side_copy_returns_before_strata_points', 'file': 'vmf.py', 'find': "        if self.strata_points is not None:\n            new_side.strata_points = [point.copy() for point in self.strata_points]\n", 'replace': "        if not self.is_disp:\n            return new_side\n        if self.strata_points is not None:\n            new_side.strata_points = [point.copy() for point in self.strata_points]\n", 'expect': 'C09.P6'},
     {'id': 'ok_side_copy_strata_points_first', 'file': 'vmf.py', 'find': "        side_mapping[self.id] = new_side.id\n        if self.is_disp:", 'replace': "        side_mapping[self.id] = new_side.id\n        if self.strata_points is not None:\n            new_side.strata_points = [point.copy() for point in self.strata_points]\n        if self.is_disp:", 'expect': None},
     {'id': 'entity_copy_logical_pos_heuristic', 'file': 'vmf.py', 'find': "            logical_pos=self.logical_pos,\n            vis_shown=self.vis_shown if keep_vis else True,", 'replace': "            logical_pos=None if self.logical_pos.startswith('[0 ') else self.logical_pos,\n            vis_shown=self.vis_shown if keep_vis else True,", 'expect': 'C09.P1'},
